@@ -351,7 +351,10 @@ fn run_inner(kind: &str, file: Vec<u8>, ops: Vec<Op>) -> String {
                     let existing: Vec<SubMesh> = m.lods[*l].parts[*p].submeshes.clone();
                     let mut supplied = Vec::new();
                     for (i, (o, c)) in subs.iter().enumerate() {
-                        let mut s = existing[i];
+                        // the public fields are what the caller supplies; which parsed entry the
+                        // value was cloned from must not matter (half the calls clone the i-th
+                        // entry, half use the first entry as a template for every range)
+                        let mut s = if (verts.len() + indices.len()) % 2 == 0 { existing[i] } else { existing[0] };
                         s.index_offset = *o;
                         s.index_count = *c;
                         supplied.push(s);
